@@ -665,7 +665,7 @@ pub fn gen_big_mapping(r: &mut Rng) -> String {
         names[k] = format!("long.{}", "n".repeat(len));
     }
     // duplicated class names (the last block wins): a few names occur again later in the file
-    let ndup = r.below(5);
+    let ndup = 1 + r.below(4);
     for _ in 0..ndup {
         let k = r.below(names.len());
         let n = names[k].clone();
@@ -676,16 +676,17 @@ pub fn gen_big_mapping(r: &mut Rng) -> String {
     // (b) one class where ONE obfuscated name has N entries, N around the sizes where search code changes strategy
     let specials: Vec<usize> = (0..3).map(|_| r.below(names.len())).collect();
     let group = *r.pick(&[17usize, 20, 23, 33, 40, 64, 65, 100, 255, 256, 257]);
-    let single = r.below(names.len());
-    let single_n = *r.pick(&[33usize, 34, 35, 40, 62, 63, 64, 65, 66, 90, 127, 128, 129, 130, 131, 219, 255, 256, 257, 258, 259, 260, 476, 513, 514, 515, 516, 517]);
-    let single_pre = *r.pick(&[0usize, 0, 3, 40]);
+    const SIZES: &[usize] = &[33, 34, 35, 40, 62, 63, 64, 65, 66, 90, 127, 128, 129, 130, 131, 219, 255, 256, 257, 258, 259, 260, 476, 513, 514, 515, 516, 517];
+    let singles: Vec<(usize, usize, usize, usize)> = (0..6)
+        .map(|_| (r.below(names.len()), *r.pick(SIZES), *r.pick(&[0usize, 0, 3, 40]), *r.pick(&[0usize, 0, 3, 40])))
+        .collect();
     let mut s = String::new();
     for (i, n) in names.iter().enumerate() {
         s.push_str(&format!("com.example.Orig{} -> {}:{}", i, n, nl));
         if r.chance(1, 9) {
             s.push_str(&format!("# {{\"id\":\"sourceFile\",\"fileName\":\"F{}.kt\"}}{}", i, nl));
         }
-        if i == single {
+        if let Some(&(_, single_n, single_pre, single_post)) = singles.iter().find(|x| x.0 == i) {
             for k in 0..single_pre {
                 s.push_str(&format!("    void pre{}() -> a{}{}", k, k, nl));
             }
@@ -697,7 +698,7 @@ pub fn gen_big_mapping(r: &mut Rng) -> String {
                     _ => s.push_str(&format!("    {}:{}:void g{}(int) -> b{}", a, a, k % 7, nl)),
                 }
             }
-            for k in 0..(if single_pre == 40 { 40 } else { single_pre }) {
+            for k in 0..single_post {
                 s.push_str(&format!("    void post{}() -> c{}{}", k, k, nl));
             }
             continue;
@@ -742,7 +743,7 @@ pub fn emit_big_queries(out: &mut Vec<String>, mapping: &[u8], r: &mut Rng, q: Q
     }
     let mut by_count: Vec<(&String, usize)> = counts.into_iter().collect();
     by_count.sort_by(|a, b| b.1.cmp(&a.1));
-    let heavy: Vec<String> = by_count.iter().take(5).map(|(c, _)| (*c).clone()).collect();
+    let heavy: Vec<String> = by_count.iter().take(9).map(|(c, _)| (*c).clone()).collect();
     for c in &heavy {
         picks.push(c.clone());
     }
